@@ -102,6 +102,132 @@ class Interleaving(Harness):
         bad = [row for row in rows if not row.endswith('ok')]
         return bool(bad), 'savers with cell texts %r stepping in the order %r: per saver "texts -> what its cells show in its own dump": %r' % (case['texts'], case['schedule'], rows)
 
+import threading
+class Baton:
+    """strictly alternating execution of saver threads: a saver runs until its next lock acquisition (or its end), then the
+    scheduler (main thread) decides who continues.  Only one thread ever runs; the interpreter and z3 are never used concurrently."""
+    def __init__(self, n):
+        self.go = [threading.Semaphore(0) for _ in range(n)]; self.back = threading.Semaphore(0)
+        self.state = ['new'] * n; self.error = [None] * n; self.current = None; self.result = [None] * n; self.abort = False
+    def pause(self, i):
+        """called by saver i at a scheduling point"""
+        self.state[i] = 'waiting'; self.back.release(); self.go[i].acquire()
+        if self.abort: raise SystemExit
+        self.state[i] = 'running'
+    def resume(self, i):
+        self.current = i; self.go[i].release(); self.back.acquire()
+class AbortSaver(BaseException): pass
+
+BOOK = 'structs::spreadsheet::Spreadsheet::'
+from harness.c07 import WS
+class SaveInterleaving(Harness):
+    """whole saves: every saver runs the real make_buffer on a clone of one workbook whose table is shared (one sheet is still
+    unloaded); a scheduling point sits at EVERY acquisition of the table's lock, whatever code takes it"""
+    name = 'saves.lock_interleaving'; property_id = 'C16'
+    entry = ['writer::xlsx::make_buffer', 'writer::xlsx::worksheet::write', CELL + 'write_to', 'structs::shared_string_table::SharedStringTable::set_cell', 'writer::xlsx::shared_strings::write']
+    classes = {}
+    def __init__(self, tier):
+        self.ncell = 2
+        self.nsaver = 2
+        self.maxn = 1 if tier == 'quick' else 2
+        self.doc = '%d savers, each running the real writer::xlsx::make_buffer (part writers other than the sheet part and the shared-strings part stubbed) on its own clone of a workbook that has one unloaded sheet — so all clones share the workbook\'s shared-string table — and %d text cells of symbolic content per saver; a scheduling point at every acquisition of the table lock (read or write) and the choice of the next saver a solver variable: every save completes, and in the file a saver produces every text cell refers to the index of its own string' % (self.nsaver, self.ncell)
+        self.bounds = {'savers': self.nsaver, 'text_cells_per_saver': self.ncell, 'text_chars': [1, self.maxn], 'alphabet': 'a-b', 'scheduling_points': 'every RwLock::read / RwLock::write on the shared table, from the entry of make_buffer to its return', 'lock_model': 'a saver keeps running from one acquisition to its next one (the guard is released before the next acquisition in all code seen; a nested acquisition would be reported as unsupported)',
+                       'threads': 'not executed: each saver is a coroutine over the same interpreter; memory-model effects, lock poisoning and OS scheduling are outside the claim'}
+    def setup(self, it):
+        from engine import cryptomodel as cm
+        xmlmodel.install(it); xmlmodel.install_events(it); cm.install(it); cm.install_digests(it)
+    def run(self, it, ctx, res):
+        from engine import cryptomodel as cm
+        it.world = cm.World()
+        texts = []
+        try:
+            book = Box_(it.call('<structs::spreadsheet::Spreadsheet as std::default::Default>::default', []))
+            it.call(BOOK + 'new_sheet::<&str>', [Ref(book), sref('S')])
+            raw = it.call(BOOK + 'new_sheet::<&str>', [Ref(book), sref('RAW')]).fields[0]
+            it.call(WS + 'set_raw_data_of_worksheet', [raw, it.call('<structs::raw::raw_worksheet::RawWorksheet as std::default::Default>::default', [])])
+            books = []
+            for s in range(self.nsaver):
+                b = Box_(it.call('<structs::spreadsheet::Spreadsheet as std::clone::Clone>::clone', [Ref(book)]))
+                ws = it.call(BOOK + 'get_sheet_mut', [Ref(b), iref(0)]).fields[0]
+                ts = []
+                for i in range(self.ncell):
+                    n = ctx.sym_int('len_%d_%d' % (s, i), 1, self.maxn); n = next(k for k in range(1, self.maxn + 1) if ctx.branch(n == k))
+                    cs = [ctx.sym_int('t_%d_%d_%d' % (s, i, k), 97, 98) for k in range(n)]
+                    cell = it.call(WS + 'get_cell_mut::<(u32, u32)>', [ws, [i + 1, 1]])
+                    it.call(CELL + 'set_value_string::<&str>', [cell, sref(SStr(cs))]); ts.append(cs)
+                books.append(b); texts.append(ts)
+        except Panic as e:
+            self.fail(ctx, res, 'no-panic', 'setup: ' + str(e)); return
+        n = self.nsaver
+        bat = Baton(n); parts = [Parts() for _ in range(n)]
+        install_writer_stubs(it, parts[0])
+        pats = [(p, f) for p, f in it.stub_patterns if 'make_file_from_writer' not in p.pattern]
+        def mk_file(it_, callee, path, arv, writer, d, light):
+            parts[bat.current].parts.append((list(deref_all(path).chars), deref_all(writer))); return OK([])
+        def lock(it_, callee, l):
+            bat.pause(bat.current); return OK(l)
+        pats = [(re.compile(r'std::sync::RwLock::<.*>::(read|write)'), lock), (re.compile(r'writer::driver::make_file_from_writer::<.*>'), mk_file),
+                (re.compile(r'structs::raw::raw_worksheet::RawWorksheet::write::<.*>'), lambda it_, callee, *a: OK([]))] + pats
+        it.stub_patterns = pats
+        it.stubs = {'structs::stylesheet::Stylesheet::set_style': lambda it_, st, style: 0}
+        def body(i):
+            bat.go[i].acquire()
+            try:
+                if bat.abort: return
+                bat.state[i] = 'running'
+                bat.result[i] = it.call('writer::xlsx::make_buffer', [Ref(books[i]), False])
+            except SystemExit: return
+            except BaseException as e: bat.error[i] = e
+            finally:
+                bat.state[i] = 'done'; bat.back.release()
+        ths = [threading.Thread(target=body, args=(i,), daemon=True) for i in range(n)]
+        for t in ths: t.start()
+        sched = []; step = 0; err = None
+        try:
+            while True:
+                ready = [i for i in range(n) if bat.state[i] != 'done']
+                if not ready: break
+                pick = ready[-1]
+                for i in ready[:-1]:
+                    if ctx.branch(ctx.sym_bool('step%d_saver%d' % (step, i))): pick = i; break
+                sched.append(pick); step += 1
+                bat.resume(pick)
+                if bat.error[pick] is not None: err = bat.error[pick]; break
+                if step > 200: raise Unsupported('more than 200 scheduling points')
+        finally:
+            bat.abort = True
+            for i in range(n):
+                if bat.state[i] != 'done': bat.go[i].release()
+            for t in ths: t.join(timeout=5)
+            it.stub_patterns = []; it.stubs = {}
+        info = {'schedule': sched}
+        if err is not None:
+            if isinstance(err, Panic): self.fail(ctx, res, 'no-panic', str(err), info=info); return
+            raise err
+        for s in range(n):
+            r = bat.result[s]
+            if r is None or r.variant != 0: self.fail(ctx, res, 'save-completes', 'make_buffer returned Err', info=dict(info, saver=s)); return
+            sst = [rec for path, rec in parts[s].parts if ''.join(chr(c) for c in path) == 'xl/sharedStrings.xml']
+            dump = strings_of_part(it, sst[0]) if sst else []
+            sheets = [rec for path, rec in parts[s].parts if ''.join(chr(c) for c in path).startswith('xl/worksheets/sheet')]
+            refs = [x for rec in sheets for x in cell_refs(it, rec)]
+            self.oblige(ctx, res, 'every-text-cell-written-as-shared-string', len(refs) == self.ncell, info=dict(info, saver=s, refs=len(refs)))
+            for (ref, idx), own in zip(refs, texts[s]):
+                good = 0 <= idx < len(dump) and len(dump[idx]) == len(own)
+                self.oblige(ctx, res, 'cell-shows-its-own-string-in-its-saver-file', chars_eq(dump[idx], own) if good else False, info=dict(info, saver=s, cell=ref, index=idx, dump=len(dump)))
+    def case_of(self, v):
+        m = v['model']
+        texts = [[''.join(chr(m.get('t_%d_%d_%d' % (s, i, k), 97)) for k in range(m.get('len_%d_%d' % (s, i), 1))) for i in range(self.ncell)] for s in range(self.nsaver)]
+        c = {'texts': texts, 'schedule': v['info'].get('schedule'), 'oblig': v['oblig']}; c['show'] = dict(c); return c
+    def confirm(self, case, profile):
+        # real threads: the schedule itself cannot be forced on the native build, so the savers are raced (barrier start, many rounds,
+        # many strings per saver built from the counterexample's texts) until a cell shows a foreign string or the budget is used up
+        spec = ';'.join(','.join(ts) for ts in case['texts'])
+        r = native.run_cases([['saver_race', spec, 12]], profile, timeout_each=180)[0]
+        if r[0] != 'ok': return True, 'racing savers %r -> %r' % (case['texts'], r)
+        rows = [native.unhx(x) for x in r[1]]
+        return rows[0] != 'all cells show their own strings', 'savers (texts %r, schedule found by the solver %r) raced on real threads: %s' % (case['texts'], case['schedule'], rows)
+
 def harnesses(tier):
-    return [Interleaving(tier)]
+    return [Interleaving(tier), SaveInterleaving(tier)]
 OPTIONS = {'want_smir': True, 'level': 'other'}
